@@ -208,6 +208,14 @@ class LazyRegistry(Generic[facets.QuantityT, facets.UnitT]):
         self.__init()
         return self[item]
 
+    def __contains__(self, item):
+        self.__init()
+        return item in self
+
+    def __iter__(self):
+        self.__init()
+        return iter(self)
+
     def __call__(self, *args, **kwargs):
         self.__init()
         return self(*args, **kwargs)
